@@ -21,10 +21,10 @@ class ElementTri15ParamPlate(ElementGlobal):
                         [0., 1.],
                         [0., 1.],
                         [.5, 0.],
-                        [.5, .5],
-                        [0., .5],
                         [.5, 0.],
                         [.5, .5],
+                        [.5, .5],
+                        [0., .5],
                         [0., .5]])
 
     refdom = RefTri
